@@ -30,6 +30,10 @@ def run(c):
     c.assumptions += [
         "exact float64 domain: counts and values are multiples of 1/16, sums multiples of 1/256, all below 2^53 in those units (the model "
         "holds them as scaled Ints); value-array counts are multiples of the array length",
+        "MapStringTopBytes is called with a view of ONE per-case byte buffer that the next call overwrites (and a third of the calls scribble "
+        "over afterwards), as its real callers do; that the key stored in Top is a copy independent of the caller's buffer is trivially true of "
+        "the functional model, so this aliasing obligation rests on the correspondence and the oracle (conservation, finish-over-capacity, "
+        "duplicate-top-key, write-never-returns), not on a theorem",
         "random draws and Go map order are inputs of the model: the harness derives a witness (rounds, evicted keys, enumeration) from the "
         "observed pre/post state; the model must reproduce the observed row from it (an illegal eviction or fold cannot be reproduced)",
         "host tags, sum of squares, t-digest and HLL parts of a MultiValue are not modelled; `1 << sampleFactorLog2` does not overflow",
@@ -75,7 +79,8 @@ META = {
     "note": ("Trusted: Lean kernel; the reading of the property; correspondence on generated histories (quick 800, thorough 6x4000 cases) in the "
              "exact integer domain of float64; witnesses for randomness/map order are derived from observed states (a draw that is "
              "consistent with the outcome is assumed, the actual sfc64 stream is not replayed except for the redirect test). "
-             "Not modelled: host tags, sum of squares, t-digest, HLL, int overflow of 1<<sampleFactorLog2, non-finite counts. "
+             "Memory aliasing between the caller's []byte and the keys of Top cannot be expressed in the functional model: it is covered only by "
+             "driving MapStringTopBytes from one reused, overwritten buffer and checking the real row. Not modelled: host tags, sum of squares, t-digest, HLL, int overflow of 1<<sampleFactorLog2, non-finite counts. "
              "Termination of the resample loop is only probabilistic in the code; proved: it ends under maximal draws, and "
              "a round with zero draws on positive counts changes nothing (so no worst-case bound exists)."),
     "design_ref": "DESIGN.md §6 C07",
